@@ -5,4 +5,6 @@ ObsEmit(op, args, ret, post) ==
 \* value tables: two of the handles carry EQUAL values (identity vs equality), one a different value
 Val2 == <<1, 1>>
 Val3 == <<1, 1, 2>>
+Val4 == <<1, 1, 2, 2>>
+ObsNone(op, args, ret, post) == TRUE
 ================================================================================
